@@ -80,10 +80,15 @@ def r02_2_join_payload(ctx: Ctx, rule: str = "R02.2") -> None:
             and src(n.left).split("[", 1)[1] == src(n.comparators[0]).split("[", 1)[1]
             for e in sl.exprs for n in ast.walk(e)
         )
-        loops_common = any(isinstance(n, ast.comprehension) and "common_columns" in src(n.iter) for e in sl.exprs for n in ast.walk(e)) or "for tag in common_columns" in txt
-        has_loop_path = has_fact(path_facts(p), "TRUTH", ("common_columns",), True)
-        if any(fct.kind == "TRUTH" and not fct.polarity and fct.args[0] != "common_columns" and "terms" in fct.args[0] for fct in path_facts(p)):
-            # the list of ON terms was tested empty although terms were added on this path: not a real execution
+        from ..astutil import pattern_captures
+
+        jcaps = pattern_captures(p.steps[idx].node.pattern)  # type: ignore[union-attr]
+        common_v = next((n for n, acc in jcaps.items() if acc[-1:] == ("common_columns",)), "common_columns")
+        loops_common = any(isinstance(n, ast.comprehension) and src(n.iter) == common_v for e in sl.exprs for n in ast.walk(e))
+        has_loop_path = has_fact(path_facts(p), "TRUTH", (common_v,), True)
+        # a list that received terms on this path cannot be tested empty afterwards: such paths are not real executions
+        extended = {src(c.func.value) for _, c in path_calls(p, idx) if call_attr(c) in ("extend", "append") and isinstance(c.func, ast.Attribute)}
+        if any(fct.kind == "TRUTH" and not fct.polarity and fct.args[0] in extended for fct in path_facts(p)):
             continue
         inst = "join:on-clause:common-columns"
         if has_loop_path:
